@@ -310,4 +310,22 @@ def run(ctx):
                        "pto_count reset outside on_ack_rcvd/discard_epoch: the PTO interval would stop doubling")
         else:
             ctx.ob("R5", "%s|unclassified pto_count write" % b.short, False, b.where(line), "write shape %s" % (kind[0],))
+    # ---------------------------------------------------------------- R6
+    ctx.rule("R6", "the loss-detection timer is re-armed wherever RFC 9002 ends a procedure with SetLossDetectionTimer(): "
+                   "OnPacketNumberSpaceDiscarded, OnLossDetectionTimeout, OnAckReceived (after loss detection), OnPacketSent (in flight)")
+    spec = [(CC + "::discard_epoch", r"PacketSpace::discard$"), (CC + "::on_loss_detection_timeout", None),
+            (CC + "::on_ack_rcvd", r"PacketSpace::detect_lost_packets$"), (CC + "::on_packet_sent", r"Control::on_packet_sent_cc$|::on_packet_sent_cc$")]
+    for fn, anchor_rx in spec:
+        b = ctx.anchor("R6", fn)
+        if not b:
+            continue
+        st = call_blocks(b, r"CongestionController::set_loss_detection_timer$")
+        starts = call_blocks(b, anchor_rx) if anchor_rx else [0]
+        ok = bool(st) and bool(starts)
+        if ok:
+            r = b.reachable_from([b.term(x)["to"] if anchor_rx and b.term(x).get("to") is not None else x for x in starts], avoid=set(st))
+            ok = not (r & set(b.return_blocks()))
+        ctx.ob("R6", "%s|ends with set_loss_detection_timer" % b.short, ok, b.where(),
+               "every path from %s to return re-arms the timer (calls at %s): %s — without it ack-eliciting packets still in "
+               "flight are neither declared lost nor probed" % ("the anchor call" if anchor_rx else "entry", st, ok))
     ctx.assume("Control trait objects are NewReno (the only workspace impl besides none); dyn calls matched by trait method name")
